@@ -1,8 +1,8 @@
 #!/bin/bash
-# ./collect_seeded.sh <Cxx> [name]  — verify a sub-agent's seeded change in its worktree /tmp/wt/<Cxx>,
+# ./collect_seeded.sh <worktree name under /tmp/wt> [name under /verif/seeded] [property id]  — verify a sub-agent's seeded change in its worktree /tmp/wt/<Cxx>,
 # store it under /verif/seeded/<name>, run our quick check against it, then remove the worktree.
 set -u
-p="$1"; name="${2:-$1}"; wt=/tmp/wt/$p; out=/verif/seeded/$name
+p="$1"; name="${2:-$1}"; prop="${3:-$1}"; wt=/tmp/wt/$p; out=/verif/seeded/$name
 [ -f $wt/seeded/patch.diff ] || { echo "no patch in $wt/seeded"; exit 2; }
 mkdir -p $out && cp -r $wt/seeded/* $out/
 log=$out/verify.log; : > $log
@@ -23,8 +23,8 @@ cd /verif
 unset CARGO_TARGET_DIR
 if git -C /repo diff --quiet; then
   if git -C /repo apply $out/patch.diff 2>>$log; then
-    echo "== our check ($p quick) with the change applied to /repo" | tee -a $log
-    timeout 1200 ./check $p quick > $out/check.out 2>&1 < /dev/null; echo "check exit: $?" > $out/check.rc; grep -E "VIOLATION|KNOWN|MACHINERY|^C[0-9]+ " $out/check.out | head -8 | tee -a $log; cat $out/check.rc | tee -a $log; rm -f $out/check.out $out/check.rc
+    echo "== our check ($prop quick) with the change applied to /repo" | tee -a $log
+    timeout 1200 ./check $prop quick > $out/check.out 2>&1 < /dev/null; echo "check exit: $?" > $out/check.rc; grep -E "VIOLATION|KNOWN|MACHINERY|^C[0-9]+ " $out/check.out | head -8 | tee -a $log; cat $out/check.rc | tee -a $log; rm -f $out/check.out $out/check.rc
     git -C /repo checkout -q -- .
   else
     echo "patch does not apply to /repo HEAD (fix commits?) - needs manual rebase" | tee -a $log
